@@ -3506,12 +3506,20 @@ class DecVar(Vars):
         item_array = index_array(self.shape)
         indices = item_array[item]
 
-        return DecVarSub(self.dro_model, self, indices, fixed=self.fixed)
+        fixed = self.fixed
+        if self.rand_adapt is not None:
+            # entries that were given an affine dependency one by one
+            fixed = fixed and not self.rand_adapt[np.array(indices).flatten()].any()
+
+        return DecVarSub(self.dro_model, self, indices, fixed=fixed)
 
     def to_affine(self):
 
         expr = super().to_affine()
-        return DecAffine(self.dro_model, expr, self.event_adapt, self.fixed)
+        fixed = self.fixed
+        if self.rand_adapt is not None:
+            fixed = fixed and not self.rand_adapt.any()
+        return DecAffine(self.dro_model, expr, self.event_adapt, fixed)
 
     def adapt(self, to):
 
